@@ -516,7 +516,8 @@ func (e *Env) c04CloseConnectionAs(rule, typ string) {
 		held := li.held(li.must[n])
 		ok := false
 		for _, h := range held {
-			if strings.HasSuffix(h, ".closeLock") {
+			// a mutex that is a field of the port itself (the receiver) - whatever it is called
+			if len(fn.Params) > 0 && strings.Contains(h, "$"+core.ParamName(fn.Params[0])+".") {
 				ok = true
 			}
 		}
